@@ -3,7 +3,7 @@ import importlib
 import logging
 
 from redun import task
-from redun.scheduler import catch
+from redun.scheduler import catch, catch_all
 from vp.stubs.schedlab import Lab
 
 RS = importlib.import_module("redun.scheduler")
@@ -15,8 +15,21 @@ class LeafError(ValueError):
     pass
 
 
+class UnpicklableError(LeafError):
+    """Carries something pickle refuses (a lock): recording it needs the scheduler's fallback."""
+
+    def __init__(self, msg):
+        super().__init__(msg)
+        import threading
+        self.lock = threading.Lock()
+
+
+# branch = (x, fail, caught, mode); mode: 0 plain, 1 leaf without caching (cache_scope NONE), 2 shared mid job (the same
+# non-leaf call from several branches), 3 leaf that demands the whole limit ("hog"), 4 failing with an unpicklable error
 @task(name="leaf", namespace=NS, version="1")
 def leaf(salt, x, fail=False):
+    if fail == 2:
+        raise UnpicklableError("leaf %s failed" % (x,))
     if fail:
         raise LeafError("leaf %s failed" % (x,))
     return ("leaf", x)
@@ -27,11 +40,18 @@ def leaf_nocache(salt, x, fail=False):
     return ("leaf", x)
 
 
+@task(name="leaf_hog", namespace=NS, version="1")
+def leaf_hog(salt, x, fail=False):
+    return ("leaf", x)
+
+
 @task(name="mid", namespace=NS, version="1")
-def mid(salt, i, x, fail=False, nocache=False):
-    if nocache:
+def mid(salt, i, x, fail=False, mode=0):
+    if mode == 1:
         return leaf_nocache(salt, x, fail)
-    return leaf(salt, x, fail)
+    if mode == 3:
+        return leaf_hog(salt, x, fail)
+    return leaf(salt, x, 2 if (fail and mode == 4) else fail)
 
 
 @task(name="recover", namespace=NS, version="1", cache=False)  # (no salt argument: never served from an earlier run)
@@ -39,15 +59,16 @@ def recover(error):
     return ("recovered", str(error))
 
 
+def _branch(salt, i, x, fail, caught, mode):
+    e = mid(salt, 0 if mode == 2 else i, x, fail, mode)
+    if caught:
+        e = catch(e, LeafError, recover)
+    return e
+
+
 @task(name="main", namespace=NS, version="1")
 def main(salt, spec):
-    out = []
-    for i, (x, fail, caught, nocache) in enumerate(spec):
-        e = mid(salt, i, x, fail, nocache)
-        if caught:
-            e = catch(e, LeafError, recover)
-        out.append(e)
-    return out
+    return [_branch(salt, i, x, fail, caught, mode) for i, (x, fail, caught, mode) in enumerate(spec)]
 
 
 @task(name="bad_executor", namespace=NS, version="1", executor="no-such-executor")
@@ -58,12 +79,19 @@ def bad_executor(salt, x):
 @task(name="main_bad", namespace=NS, version="1")
 def main_bad(salt, spec):
     out = [catch(bad_executor(salt, 0), Exception, recover)]
-    for i, (x, fail, caught, nocache) in enumerate(spec):
-        e = mid(salt, i, x, fail, nocache)
-        if caught:
-            e = catch(e, LeafError, recover)
-        out.append(e)
-    return out
+    return out + [_branch(salt, i, x, fail, caught, mode) for i, (x, fail, caught, mode) in enumerate(spec)]
+
+
+@task(name="recover_all", namespace=NS, version="1", cache=False)
+def recover_all(values):
+    return ["error:" + str(v) if isinstance(v, Exception) else v for v in values]
+
+
+@task(name="main_all", namespace=NS, version="1")
+def main_all(salt, spec):
+    # all branches under one catch_all: failures are tolerated and processed only when every branch has settled
+    return catch_all([mid(salt, 0 if mode == 2 else i, x, fail, mode) for i, (x, fail, caught, mode) in enumerate(spec)],
+                     LeafError, recover_all)
 
 
 def shared_backend():
@@ -81,9 +109,10 @@ def new_salt():
     return "s%d_%d" % (os.getpid(), _STATE["n"])
 
 
-def set_limits(leaf_limits, mid_limits):
+def set_limits(leaf_limits, mid_limits, hog_limits=None):
     """Definition-time options (neither hashed nor pickled): the demand of each task."""
-    for t, lim in ((leaf, leaf_limits), (leaf_nocache, leaf_limits), (mid, mid_limits), (bad_executor, leaf_limits)):
+    for t, lim in ((leaf, leaf_limits), (leaf_nocache, leaf_limits), (mid, mid_limits), (bad_executor, leaf_limits),
+                   (leaf_hog, hog_limits if hog_limits is not None else leaf_limits)):
         if lim is None:
             t._task_options_base.pop("limits", None)
         else:
@@ -93,9 +122,12 @@ def set_limits(leaf_limits, mid_limits):
 def expected(spec, with_bad=False):
     """What the reduction semantics prescribe for the template: value, or the first uncaught failure in evaluation order
     is *an* admissible error (any uncaught failing leaf may be the one reported, depending on completion order)."""
+    if with_bad == 2:  # catch_all template
+        vals = [("error:leaf %s failed" % (x,)) if fail else ("leaf", x) for (x, fail, caught, mode) in spec]
+        return vals, []
     vals = []
     errors = []
-    for (x, fail, caught, nocache) in spec:
+    for (x, fail, caught, mode) in spec:
         if fail and not caught:
             errors.append("leaf %s failed" % (x,))
             vals.append(None)
@@ -103,18 +135,23 @@ def expected(spec, with_bad=False):
             vals.append(("recovered", "leaf %s failed" % (x,)))
         else:
             vals.append(("leaf", x))
-    if with_bad:
+    if with_bad == 1:
         vals = [("recovered", 'Unknown executor "no-such-executor"')] + vals
     return vals, errors
 
 
 def run_case(spec, pick, limits, leaf_limits, mid_limits=None, early=False, symbolic=False, with_bad=False, salt=None,
-             resources=("r",), backend="shared", fifo_tasks=("mid", "main", "main_bad", "recover")):
+             resources=("r",), backend="shared", fifo_tasks=("mid", "main", "main_bad", "main_all", "recover", "recover_all"), hog_limits=None,
+             run_kwargs=None, lab=None):
     """One lab run of the template.  Returns (lab, outcome, salt)."""
-    set_limits(leaf_limits, mid_limits)
+    set_limits(leaf_limits, mid_limits, hog_limits)
+    if lab is not None:
+        salt = salt or new_salt()
+        prog = {0: main, 1: main_bad, 2: main_all}[int(with_bad)]
+        return lab, lab.run(prog(salt, list(spec)), **(run_kwargs or {})), salt
     lab = Lab(pick, limits=limits, early=early, backend=(shared_backend() if backend == "shared" else backend),
-              symbolic=symbolic, resources=resources, fifo_tasks=() if early else fifo_tasks)
+              symbolic=symbolic, resources=resources, fifo_tasks=() if early == 1 else (("main", "main_bad", "main_all", "recover", "recover_all") if early == 2 else fifo_tasks))
     salt = salt or new_salt()
-    prog = main_bad if with_bad else main
-    outcome = lab.run(prog(salt, list(spec)))
+    prog = {0: main, 1: main_bad, 2: main_all}[int(with_bad)]
+    outcome = lab.run(prog(salt, list(spec)), **(run_kwargs or {}))
     return lab, outcome, salt
